@@ -40,16 +40,15 @@ def builder(tier, sr, p):
 def create(tier, sr, k, p):
     h("%s_purge_create%d_%s_%s" % (tier, k, sn(sr), pn(p)), U, "purge::step_create(%d, %s, %s)" % (k, B(sr), P(p)))
 
-# ---- quick tier
+# ---- quick tier (every variant below was measured: 25-250 s, < 9 GB)
 for p in range(5):
     delete("q", False, 1, (0, p, 3))
-for p in (0, 2):
-    delete("q", False, 1, (2, p, 1))
+delete("q", False, 1, (2, 0, 1))
 delete("q", True, 1, (0, 0, 3))
-for (t, u, p) in [(0, 1, (0, 0, 3)), (0, 1, (0, 1, 0)), (0, 1, (1, 0, 2)), (0, 1, (2, 4, 0)), (1, 1, (3, 0, 2)), (2, 0, (0, 3, 2))]:
+for (t, u, p) in [(0, 1, (0, 0, 3)), (0, 1, (0, 1, 0)), (0, 1, (1, 0, 2))]:
     batch("q", False, t, u, p)
 batch("q", True, 0, 1, (0, 1, 0))
-for p in [(0, 0, 3), (2, 2, 1), (1, 1, 0), (0, 3, 0), (3, 4, 0)]:
+for p in [(0, 0, 3), (1, 1, 0), (0, 3, 0), (3, 4, 0)]:
     atomic("q", False, 1, p)
 for p in [(3, 0, 4), (0, 3, 2), (4, 1, 3), (2, 2, 0), (3, 3, 3), (0, 0, 0), (1, 4, 0)]:
     maintain("q", False, p)
@@ -58,38 +57,48 @@ maintain("q", True, (3, 0, 4))
 # symex steps, 19 GB even with one occupied index; its two halves are decided separately (join
 # over entities: C02/C06; delete_entities: here). One harness is kept for manual runs.
 delall("x", False, (1, 0, 1))
-for p in [(0, 3, 1), (1, 1, 1), (0, 2, 4)]:
+# a dropped builder: patterns WITHOUT a dead index (the builder's entity then takes the next unused
+# index, a constant; with a dead index on the free list the index that comes out of the
+# allocator's Option-returning pop is symbolic for CBMC and builder + 2 inserts + deferred delete
+# + maintain on a symbolic index exceeds 16 GB)
+for p in [(0, 2, 4), (0, 3, 0)]:
     builder("q", False, p)
+builder("x", False, (0, 3, 1))
 for k in range(5):
     create("q", False, k, (1, 0, 3))
-    create("q", False, k, (0, 2, 0))
+create("q", False, 0, (0, 2, 0))
+create("q", False, 1, (0, 2, 0))
 create("q", True, 0, (2, 1, 1))
 create("q", False, 1, (4, 3, 1))
+# measured heavy (> 16 GB): kept for manual runs
+atomic("x", False, 1, (2, 2, 1))
+batch("x", False, 1, 1, (3, 0, 2))
 
-# ---- thorough tier (adds to the quick tier)
-NB = [(0, 3), (2, 1), (4, 0), (1, 2)]
+# ---- thorough tier (adds to the quick tier; sized so that it can be validated in one sitting)
+NB = [(0, 3), (2, 1), (4, 0)]
 for t in range(3):
     for p in range(5):
         for (a, b) in NB:
             pat = [a, b]
             pat.insert(t, p)
             delete("t", False, t, tuple(pat))
-            atomic("t", False, t, tuple(pat))
-PB = [(0, 0, 3), (0, 1, 0), (1, 0, 2), (2, 4, 0), (3, 0, 2), (0, 3, 2), (2, 2, 2), (4, 0, 1), (0, 0, 0), (3, 3, 0), (1, 1, 1), (0, 2, 4)]
-for (t, u) in [(0, 1), (1, 0), (1, 1), (2, 0), (0, 2), (1, 2)]:
-    for p in PB:
+for t in (0, 2):
+    for p in (0, 1, 3):
+        atomic("t", False, t, tuple([0, 3][:t] + [p] + [0, 3][t:]))
+PB = [(0, 0, 3), (0, 1, 0), (1, 0, 2), (0, 3, 2), (0, 0, 0), (3, 3, 0)]
+for (t, u) in [(1, 0), (2, 0), (0, 2), (1, 2)]:
+    for p in PB[:3]:
         batch("t", False, t, u, p)
 for i, p in enumerate(ALL):
-    if i % 3 == 0:
+    if i % 5 == 0:
         maintain("t", False, p)
-    if i % 5 == 2:
+    if i % 9 == 3 and 1 not in p:
         builder("t", False, p)
-    if i % 6 == 3:
+    if i % 8 == 3:
         create("t", False, i % 5, p)
 for p in PB:
     maintain("t", True, p)
     delete("t", True, 1, p)
-
 # ---- C09: lazy actions (kind: 0 insert A, 1 remove A, 2 insert B, 3 observer, 4 nested, 5 lazy builder, 6 lazy builder + deferred delete, 7 lazy builder + immediate delete)
 def lazy(tier, sr, acts, p):
     a = list(acts) + [(255, 0)] * (3 - len(acts))
